@@ -596,7 +596,9 @@ def call_builtin(interp, name, args, kwargs, site):
                 interp.flavour_tests.append((mod, site, "iscoroutinefunction(_)"))
         if isinstance(f, UserFn):
             if f.flavour == "any":
-                raise Unsupported("iscoroutinefunction on a flavour-generic callable")
+                # the code under contract inspects the flavour: from here on the callable is one or the other
+                f.flavour = ("sync", "corofn")[interp.ctx.choose(2, f"flavour of {f.name}")]
+                f.inspected = True
             return f.flavour == "corofn"
         if isinstance(f, Closure):
             return isinstance(f.node, ast.AsyncFunctionDef) and not _is_gen(f.node)
